@@ -21,7 +21,8 @@ def go : List String → String
   | ["win", lo, up, t, sub] =>
     match optInt? lo, optInt? up, parseInt? t, parseInt? sub with
     | some lo, some up, some t, some sub =>
-      let a := b (!(Gen.validateChainRejectStart lo t) && !(Gen.validateChainRejectLimit up t))
+      let a := if Gen.validateLogConfigWindowRefused lo up then "x"
+        else b (Gen.configuredWindowVerbatim && !(Gen.validateChainRejectStart lo t) && !(Gen.validateChainRejectLimit up t))
       let r := if newTemporal [(lo, up)] then b (Gen.indexByDate [(lo, up)] sub == some 0) else "x"
       let c := match lo, up with
         | some l, some u => b (Gen.temporallyCompatible (some (l, u)) sub)
